@@ -551,7 +551,7 @@ package table
 //@   requires *m != nil && (*m).nh != nil && (*m).log != nil
 //@   ensures err == nil ==> (*m).nh.nelem == old((*m).nh.nelem) + batchLen(*bb) && (*m).nh.lastCmd == *bb
 //@   ensures err != nil ==> (*m).nh.nelem == old((*m).nh.nelem)
-//@   modifies (*m).nh.lastRes, (*m).nh.lastErr, (*m).nh.lastCmd, (*m).nh.nelem
+//@   modifies (*m).nh.lastRes, (*m).nh.lastErr, (*m).nh.lastCmd, (*m).nh.nelem, (*m).nh.nseq
 
 // readIntoTable: every record read from the stream is proposed, for every value of the
 // in-memory-log-size setting (0 included): records read == batch elements proposed + elements still
@@ -563,7 +563,7 @@ package table
 //@   requires m != nil && m.nh != nil && m.log != nil && reader != nil
 //@   ensures [C07.all] err == nil ==> m.nh.nelem - old(m.nh.nelem) == reader.nrec - old(reader.nrec)
 //@   before regattapb.(*Command).MarshalVT assert [C07.nonil] forall j int :: 0 <= j && j < len(m.Batch) ==> m.Batch[j] != nil
-//@   modifies reader.nrec, m.nh.lastRes, m.nh.lastErr, m.nh.lastCmd, m.nh.nelem
+//@   modifies reader.nrec, m.nh.lastRes, m.nh.lastErr, m.nh.lastCmd, m.nh.nelem, m.nh.nseq
 //@   loop 0 invariant cmd != nil && batchCmd != nil && fresh(cmd) && fresh(batchCmd) && cmd != batchCmd && fresh(msg) && len(msg) == 4194304 && estimatedSize >= 0 && !last && backOff != nil
 //@   loop 0 invariant [C07.all.count] reader.nrec - old(reader.nrec) == m.nh.nelem - old(m.nh.nelem) + len(batchCmd.Batch)
 //@   loop 0 invariant [C07.nonil] forall j int :: 0 <= j && j < len(batchCmd.Batch) ==> batchCmd.Batch[j] != nil
@@ -590,4 +590,4 @@ package table
 //@   before (*Manager).readIntoTable assert [C07.switch.fresh] id == recoveryID && recoveryID == parseU(m.store.wVal[seqKey]) && m.store.nwk[seqKey] == old(m.store.nwk[seqKey]) + 1
 //@   ensures [C07.switch.cas] err == nil ==> noSlash(name) && !m.store.wDel[tkey(name)] && m.store.wVer[tkey(name)] == m.store.rPair[tkey(name)].Ver && m.store.rHas[tkey(name)] && tableOf(bytesOf(m.store.wVal[tkey(name)])).ClusterID == parseU(m.store.wVal[seqKey]) && tableOf(bytesOf(m.store.wVal[tkey(name)])).RecoverID == 0 && tableOf(bytesOf(m.store.wVal[tkey(name)])).Name == tableOf(bytesOf(m.store.rPair[tkey(name)].Value)).Name
 //@   ensures [C07.switch.all] err == nil ==> m.nh.nelem - old(m.nh.nelem) == reader.nrec - old(reader.nrec)
-//@   modifies m.store.rHas, m.store.rPair, m.store.nwk, m.store.wVal, m.store.wVer, m.store.wDel, m.store.wPrevHas, m.store.wPrev, reader.nrec, m.nh.lastRes, m.nh.lastErr, m.nh.lastCmd, m.nh.nelem
+//@   modifies m.store.rHas, m.store.rPair, m.store.nwk, m.store.wVal, m.store.wVer, m.store.wDel, m.store.wPrevHas, m.store.wPrev, reader.nrec, m.nh.lastRes, m.nh.lastErr, m.nh.lastCmd, m.nh.nelem, m.nh.nseq
